@@ -1,0 +1,30 @@
+//go:build verif
+// +build verif
+
+package html
+
+import "sync/atomic"
+
+// Observation points for the verification harness in /verif. This file is only
+// compiled with the "verif" build tag; without it verifPoint is an empty
+// function (see verif_nohook.go).
+
+type verifHookFunc func(point string, a, b interface{})
+
+var verifHook atomic.Value // verifHookFunc
+
+// VerifSetHook installs f to be called at every observation point. f must be
+// safe for concurrent use. Passing nil removes the hook.
+func VerifSetHook(f func(point string, a, b interface{})) {
+	if f == nil {
+		f = func(string, interface{}, interface{}) {}
+	}
+
+	verifHook.Store(verifHookFunc(f))
+}
+
+func verifPoint(point string, a, b interface{}) {
+	if f, ok := verifHook.Load().(verifHookFunc); ok {
+		f(point, a, b)
+	}
+}
